@@ -185,8 +185,8 @@ def run_scenario(sc: Dict[str, Any]) -> Dict[str, Any]:
                     if fld.tag() in ("ivar", "cvar", "var") and fld.arg() == "v" and not isinstance(fld.body(), Proxy):
                         fld.replace_body(Proxy(fld.body(), "V"))
             if fault(who, "field") == "raises":
-                for fld in self.fields:
-                    if not isinstance(fld.body(), Proxy):
+                for fld in self.fields:              # (the bodies handed to attributes are other objects' docstrings)
+                    if not isinstance(fld.body(), Proxy) and fld.tag() not in ("ivar", "cvar", "var"):
                         fld.replace_body(Raising(fld.body()))
             self._inner, self._who, self._ctx = inner, who, None
             self._c08_summary: Optional[ParsedDocstring] = None
